@@ -63,7 +63,7 @@ Definition rotate (block extra : list N) (ret : N) : res (N * list N * list N) :
       else
         let all := write_at (b1 ++ extra) start lab in
         Ok (next mod 65536, firstn (length block) all, skipn (length block) all)
-    else Err 3.                                   (* ErrBufTooSmall: no room for the return label *)
+    else Err 1.                                   (* ErrBufTooSmall: no room for the return label *)
 
 (* ---------- TransformToReturnBlock ---------- *)
 Fixpoint drop_zeros (l : list N) : list N :=
